@@ -442,3 +442,41 @@ def verify_lemma(make_ctx, reg, name, timeout_ms=10000):
     rep.time = time.time() - t0
     rep.ctx = ctx
     return rep
+
+
+# ---------------------------------------------------------------------------
+def verify_frame(make_ctx, reg, name, timeout_ms=10000):
+    """Read-set frame obligation (C02): every field ``update`` reads on any path is a constructor parameter,
+    a per-epoch field (re-initialised by reset: proved by the *_reset_fresh relational obligation), a documented
+    carry-over, the input-shape memo or the running index.  A field outside these classes is a failed obligation:
+    this is how a newly added, un-reset field is caught."""
+    fr = reg.frames[name]
+    rep = verify_function(make_ctx, reg, fr["function"], timeout_ms=timeout_ms)
+    out = FnReport("frame:" + name)
+    out.kind = "frame"
+    out.file, out.sha, out.lines = rep.file, rep.sha, rep.lines
+    out.paths = rep.paths
+    out.time = rep.time
+    out.notes, out.assumed = rep.notes, rep.assumed
+    if rep.undecided:
+        out.undecided = rep.undecided
+        return out
+    allowed = set(fr["params"]) | set(fr["epoch"]) | set(fr["carry"]) | set(fr["memo"]) | set(fr["index"])
+    cls_names = set(c.name for c in make_ctx().repo.classes[fr["cls"]].mro)
+    reads = sorted(f for (c, f) in rep.reads if c in cls_names)
+    writes = sorted(f for (c, f) in rep.writes if c in cls_names)
+    for f in reads:
+        ob = X.Obligation("frame:%s/read-%s" % (name, f), "frame", tuple(fr["tags"]), z3.BoolVal(f in allowed), [], None,
+                          "field %s read by update is a parameter, per-epoch, carry-over, memo or index field" % f)
+        ob.verdict = "proved" if f in allowed else "refuted"
+        ob.backend, ob.time, ob.path = "syntactic", 0.0, "-"
+        ob.cex = None if f in allowed else {"unclassified_field": f}
+        out.obligations.append(ob)
+    for f in fr["params"]:
+        ok = f not in writes
+        ob = X.Obligation("frame:%s/param-%s-never-written" % (name, f), "frame", tuple(fr["tags"]), z3.BoolVal(ok), [],
+                          None, "constructor parameter %s is never written by update" % f)
+        ob.verdict = "proved" if ok else "refuted"
+        ob.backend, ob.time, ob.path = "syntactic", 0.0, "-"
+        out.obligations.append(ob)
+    return out
